@@ -51,6 +51,39 @@ Theorem C19_service_reads_complete : forall fx sc sessions svc ms rem0 rs s3,
 Proof. exact service_reads_complete. Qed.
 Print Assumptions C19_service_reads_complete.
 
+(* which errors the service sees while the sniffed bytes are replayed.  Every
+   error of the script comes with no bytes ([data_errfree]: sniff deadlines that
+   fire — also when more data follows —, plain EOF).  Then no read of the service
+   that is answered from the replay buffer reports an error: an error consumed
+   during sniffing is not replayed.  (In general — ok_errs inside the oracle of
+   C19_model_passes / C19_sniff_model_passes — the only error a replayed read may
+   report is the one that came together with the last sniffed byte, and only with
+   that byte.) *)
+Theorem C19_sniff_timeout_not_replayed : forall tables sc svc d rem0 rs,
+  tables_wf tables = true -> data_errfree sc = true ->
+  mux_run true tables sc svc = (d, rem0, rs) ->
+  Forall (fun e => e = 0) (replayed_errs (length (stream sc)) 0 (length (stream sc) - rem0) rs).
+Proof. exact mux_sniff_timeout_not_replayed. Qed.
+Print Assumptions C19_sniff_timeout_not_replayed.
+
+(* the same for arbitrary sniffing sessions *)
+Theorem C19_sniff_errors_not_replayed : forall sc sessions svc ms rem0 rs s3,
+  sniff_run true sc sessions svc = (ms, rem0, rs, s3) ->
+  data_errfree sc = true ->
+  Forall (fun e => e = 0) (replayed_errs (length (stream sc)) 0 (length (stream sc) - rem0) rs).
+Proof. exact sniff_timeout_not_replayed. Qed.
+Print Assumptions C19_sniff_errors_not_replayed.
+
+(* a terminal condition is still reported, after the last byte: once everything
+   has been delivered and the peer is gone, the next read returns (0, EOF) *)
+Theorem C19_terminal_eof_after_last_byte : forall fx sc sessions svc ms rem0 rs s3 n,
+  sniff_run fx sc sessions svc = (ms, rem0, rs, s3) ->
+  Forall (fun n => (0 < n)%nat) svc ->
+  (length (stream sc) + length sc <= length svc)%nat ->
+  fst (conn_read fx (S n) s3) = ROk [] EOF.
+Proof. exact terminal_eof_after_last_byte. Qed.
+Print Assumptions C19_terminal_eof_after_last_byte.
+
 (* routing, end to end for the production registration (RTSP table first, then
    HTTP): for every read script with no error before 16 bytes have arrived —
    unless nothing follows the error (peer closed, or silent past the sniff
@@ -241,6 +274,18 @@ Example C19_lasterr_prefix_refuted :
   rs = [SOk [80;79] EOF 0; SOk [83;84;32;42;120;13;10] EOF 0] /\
   ok_sniff sc [[16%nat]; [8%nat]] [2%nat; 31%nat] ms rem0 rs = false.
 Proof. exact lasterr_prefix_refuted. Qed.
+
+(* non-vacuity of C19_sniff_timeout_not_replayed: "GET /", the sniff deadline
+   fires, then the rest arrives; the HTTP matcher takes three more bytes; the HTTP service reads the
+   eight sniffed bytes without an error and goes on with the rest *)
+Example C19_sniff_timeout_nonvacuous :
+  let sc := [{| it_data := [71;69;84;32;47]; it_err := 0 |}; {| it_data := []; it_err := TIMEOUT |};
+             {| it_data := [32;72;84;84;80;47;49;46;48;13;10;13;10]; it_err := 0 |}] in
+  data_errfree sc = true /\
+  mux_run true prod_tables sc [3%nat; 3%nat; 64%nat; 64%nat] =
+    (DSvc SVC_HTTP, 10%nat, [SOk [71;69;84] 0 10; SOk [32;47;32] 0 10; SOk [72;84] 0 10;
+                             SOk [84;80;47;49;46;48;13;10;13;10] 0 0]).
+Proof. vm_compute. split; reflexivity. Qed.
 
 (* non-vacuity: a segmented OPTIONS request satisfies [good], is routed to RTSP
    with the asterisk form and to HTTP otherwise; the service then reads the
